@@ -314,7 +314,7 @@ def ser(cxx, tag, es, is_string):
     TOT = "(1 + vt_dl + %s)" % LB
     skey = "nop::Encoding<%s>::Size" % cxx
     out.append("contract %s\n  requires FRESH(value) && value->size_ <= (1UL << 36)\n  assigns\n  ensures RET == 1 + VT_LEN_UINT(%s) + %s\n" % (skey, LB, LB))
-    out.append("job vm_fn_size_%s\n  props C06 C03\n  enforce %s\n" % (tag, skey))
+    out.append("job vm_fn_size_%s\n  props C06 C03 C01\n  enforce %s\n" % (tag, skey))
     key = "nop::SerializerCommon::Write<%s, vt::SpecWriter>" % cxx
     wkey = "nop::EncodingIO<%s>::Write<vt::SpecWriter>" % cxx
     cl = ["requires SW_PRE(writer) && FRESH(value) && value->size_ <= (1UL << 36) && FRESHN(value->data_, value->size_ * %d + %d)" % (es, term),
@@ -482,4 +482,66 @@ out.append("contract %s\n%s" % (k, "".join("  %s\n" % c for c in cl)))
 out.append("job vm_fn_lb_writepayload\n  props C03 C06\n  define VT_BLOCK_MAX=(1UL<<40)\n  define VT_TERM=0\n  pre vt_dl = nondet_ulong(); vt_n = nondet_ulong(); vt_k = nondet_ulong(); vt_k2 = nondet_ulong();\n"
            "  enforce " + k + "\n  replace " + WK + "\n  replace " + WKB + "\n  timeout 1800\n"
            "  note every count 0..255: above the capacity is InvalidContainerLength with nothing written, otherwise header == smallest class of the BYTE length\n")
+
+# =========================================================================================================
+# Non-integral logical buffer with a signed count member: LogicalBuffer<float[160], int>.  LOOP CONTRACTS on the element
+# loops of WritePayload / ReadPayload; the count header is the UINT64 class of the count (not the class of the count
+# member's type), counts above the capacity (negative ones included) are InvalidContainerLength.
+LBF = "nop::LogicalBuffer<float[160], int, false>"
+out.append("c #define LBF_PRE(v) (FRESH(v) && FRESH((v)->size_) && FRESHN((v)->data_, 640))")
+out.append("c #define LBF_N(v) ((unsigned long)(long)*(v)->size_)")
+F32W = "nop::EncodingIO<float>::Write<vt::SpecWriter>"
+out.append("contract " + F32W + "\n"
+  "  requires SW_PRE(writer) && FRESH(value)\n"
+  "  assigns 5 <= writer->cap - writer->pos: __CPROVER_object_upto(writer->dst + writer->pos, 5)\n"
+  "  assigns (5 > writer->cap - writer->pos && writer->pos < writer->cap): writer->dst[writer->pos]\n"
+  "  assigns writer->pos, writer->failed, writer->calls, writer->writes\n"
+  "  ensures writer->pos <= writer->cap && writer->pos >= OLD(writer->pos)\n"
+  "  ensures ERR(RET) == 0 ==> (writer->failed == 0 && " + ROOM + " >= 5 && writer->pos == OLD(writer->pos) + 5 && writer->dst[OLD(writer->pos)] == FMT_F32)\n"
+  "  ensures ERR(RET) == 0 ==> *(const unsigned int*)value == ((unsigned int)writer->dst[OLD(writer->pos) + 1] | ((unsigned int)writer->dst[OLD(writer->pos) + 2] << 8) | ((unsigned int)writer->dst[OLD(writer->pos) + 3] << 16) | ((unsigned int)writer->dst[OLD(writer->pos) + 4] << 24))\n"
+  "  ensures ERR(RET) != 0 ==> (writer->failed == ERR(RET) && writer->pos <= OLD(writer->pos) + 1)\n"
+  "  ensures (" + wnofault(2) + " && " + ROOM + " >= 5) ==> ERR(RET) == 0\n"
+  "  ensures (" + wnofault(2) + " && " + ROOM + " < 5) ==> ERR(RET) == E_WriteLimitReached\n")
+out.append("job vm_fn_write_f32_spec\n  props C03 C06\n  enforce " + F32W + "\n  timeout 900\n")
+k = "nop::Encoding<%s>::WritePayload<vt::SpecWriter>" % LBF
+out.append("contract " + k + "\n"
+  "  requires SW_PRE(writer) && LBF_PRE(value) && vt_dl == VT_LEN_UINT(LBF_N(value)) && vt_pos0 == writer->pos\n"
+  "  assigns __CPROVER_object_whole(writer->dst), writer->pos, writer->failed, writer->calls, writer->writes\n"
+  "  ensures writer->pos <= writer->cap\n"
+  "  ensures LBF_N(value) > 160 ==> (ERR(RET) == E_InvalidContainerLength && writer->pos == OLD(writer->pos) && writer->writes == OLD(writer->writes))\n"
+  "  ensures ERR(RET) == 0 ==> (LBF_N(value) <= 160 && writer->failed == 0 && writer->pos == OLD(writer->pos) + vt_dl + 5 * LBF_N(value) && writer->dst[OLD(writer->pos)] == VT_PREFIX_UINT(LBF_N(value)))\n"
+  "  ensures (ERR(RET) == 0 && vt_k < vt_dl - 1) ==> writer->dst[OLD(writer->pos) + 1 + vt_k] == (unsigned char)(LBF_N(value) >> (8 * (vt_k & 7)))\n"
+  "  ensures (ERR(RET) == 0 && LBF_N(value) <= 160 && vt_k2 < LBF_N(value)) ==> writer->dst[OLD(writer->pos) + vt_dl + 5 * vt_k2] == FMT_F32\n"
+  "  ensures (ERR(RET) != 0 && ERR(RET) != E_InvalidContainerLength) ==> writer->failed == ERR(RET)\n")
+out.append("loop " + k + " #0\n"
+  "  assigns i, status, __CPROVER_object_whole(writer->dst), writer->pos, writer->failed, writer->calls, writer->writes\n"
+  "  invariant i <= size && size == LBF_N(value) && size <= 160\n"
+  "  invariant writer->failed == 0 && writer->fail_code >= 1 && writer->fail_code <= 18 && writer->cap <= VT_MAXLEN && writer->pos <= writer->cap\n"
+  "  invariant writer->pos == vt_pos0 + vt_dl + 5 * i\n"
+  "  invariant writer->dst[vt_pos0] == VT_PREFIX_UINT(size) && (vt_k < vt_dl - 1 ==> writer->dst[vt_pos0 + 1 + vt_k] == (unsigned char)(size >> (8 * (vt_k & 7))))\n"
+  "  invariant vt_k2 < i ==> writer->dst[vt_pos0 + vt_dl + 5 * vt_k2] == FMT_F32\n"
+  "  decreases size - i\n")
+out.append("job vm_fn_lbf_writepayload\n  props C03 C06 C09\n  pre vt_dl = nondet_ulong(); vt_k = nondet_ulong(); vt_k2 = nondet_ulong(); vt_pos0 = nondet_ulong();\n"
+  "  enforce " + k + "\n  loops\n  replace " + WK + "\n  replace " + F32W + "\n  tier thorough\n  timeout 3600\n"
+  "  note LOOP CONTRACT: every count of the int member (negative ones included); header == smallest UINT64 class of the count\n")
+k = "nop::Encoding<%s>::ReadPayload<vt::SpecReader>" % LBF
+out.append("contract " + k + "\n"
+  "  requires SR_PRE(reader) && LBF_PRE(value) && vt_pos0 == reader->pos\n  " + GH + "\n  " + VAL + "\n"
+  "  assigns *value->size_, __CPROVER_object_whole(value->data_), reader->pos, reader->failed, reader->calls\n"
+  "  ensures reader->pos <= reader->len\n"
+  "  ensures ERR(RET) == 0 ==> (reader->failed == 0 && " + HDR + " && vt_val <= 160 && LBF_N(value) == vt_val && reader->pos == OLD(reader->pos) + vt_dl + 5 * vt_val)\n"
+  "  ensures (ERR(RET) == 0 && vt_val <= 160 && vt_k < vt_val) ==> reader->src[OLD(reader->pos) + vt_dl + 5 * vt_k] == FMT_F32\n"
+  "  ensures (" + nofault(2) + " && " + HDR + " && vt_val > 160) ==> (ERR(RET) == E_InvalidContainerLength && *value->size_ == OLD(*value->size_))\n"
+  "  ensures (" + nofault(2) + " && " + HDR + " && vt_val == 0) ==> (ERR(RET) == 0 && *value->size_ == 0)\n"
+  "  ensures (ERR(RET) != 0 && ERR(RET) != E_UnexpectedEncodingType && ERR(RET) != E_InvalidContainerLength) ==> reader->failed == ERR(RET)\n")
+out.append("loop " + k + " #0\n"
+  "  assigns i, status, __CPROVER_object_whole(value->data_), reader->pos, reader->failed, reader->calls\n"
+  "  invariant i <= size && size == vt_val && size <= 160\n"
+  "  invariant reader->failed == 0 && reader->fail_code >= 1 && reader->fail_code <= 18 && reader->pos <= reader->len && reader->len <= VT_MAXLEN\n"
+  "  invariant reader->pos == vt_pos0 + vt_dl + 5 * i\n"
+  "  invariant vt_k < i ==> reader->src[vt_pos0 + vt_dl + 5 * vt_k] == FMT_F32\n"
+  "  decreases size - i\n")
+out.append("job vm_fn_lbf_readpayload\n  props C04 C02 C09\n  pre vt_p = nondet_uchar(); vt_dl = nondet_ulong(); vt_val = nondet_ulong(); vt_k = nondet_ulong(); vt_pos0 = nondet_ulong();\n"
+  "  enforce " + k + "\n  loops\n  replace " + U64 + "\n  replace " + F32 + "\n  timeout 1800\n"
+  "  note LOOP CONTRACT: the count header is accepted in every UINT64 class; counts above the capacity are InvalidContainerLength and store nothing\n")
 print("\n".join(out))
